@@ -107,6 +107,11 @@ def check_frozen_storage(out, model, wq, tag):
 
 
 def exec_history(case):
+    with M.repeatable_kernels(case["model"]["fam"] == "conv"):
+        return _exec_history(case)
+
+
+def _exec_history(case):
     out = Outcome()
     g = torch.Generator().manual_seed(case["seed"])
     dtype = gen.DT[case["dtype"]]
